@@ -321,8 +321,10 @@ func (client *client) writeLoop() {
 					// The queue has checked the size of the plain packet against the client's Maximum Packet Size. The
 					// Topic Alias property adds up to 5 bytes (3, plus a longer Property Length and Remaining Length):
 					// use an alias only if the packet still fits.
+					plain := gmqtt.MessageFromPublish(p)
+					plain.SubscriptionIdentifier = p.Properties.SubscriptionIdentifier // not copied by MessageFromPublish
 					if client.opts.ClientTopicAliasMax > 0 &&
-						uint64(gmqtt.MessageFromPublish(p).TotalBytes(packets.Version5))+5 <= uint64(client.opts.ClientMaxPacketSize) {
+						uint64(plain.TotalBytes(packets.Version5))+5 <= uint64(client.opts.ClientMaxPacketSize) {
 						// use alias if exist
 						if alias, ok := client.topicAliasManager.Check(p); ok {
 							p.TopicName = []byte{}
